@@ -8,8 +8,11 @@ PROP = {'engine': 'pn',
                   'MUSCLE_TIME_NEVER is regenerated from /repo headers on every run (tools/extract_consts.cpp)',
                   'node behaviour is a script (requested times + re-entrant actions per callback); the simulated clock is an argument of each sweep'],
  'assumptions': ['sweep theorems are about runs the model completes (explicit fuel; out of fuel = no statement)',
-                 'the full structural invariant is proved for the public operations and the pulse sweep, not yet for the GetPulseTimeAux sweep (see '
-                 'inv_preserved_partial)',
+                 'GetPulseTimeAux-sweep theorems (inv_preserved_gpt_sweep, gpt_sweep_settles, wakeup_never_late, due_nodes_reachable) assume the '
+                 'discipline verdict of managerGptC: no GetPulseTime callback invalidates/detaches/attaches a node whose own GetPulseTimeAux is in '
+                 'progress (any other node may be invalidated, attached, detached); public operations and the pulse sweep need no discipline',
+                 'still partial: fires_iff_due completeness (reachability proved, the sweep induction not), wakeup_is_min exactness (false when a '
+                 'callback supersedes an answer within one sweep), reasked visiting, termination (fuel)',
                  'now < MUSCLE_TIME_NEVER for "fires iff due"; no attachment that closes a cycle (the harness refuses it)'],
  'rule': 'random histories over a pool of 16 scripted PulseNodes (attach/detach/destroy/invalidate/change request, scripts of re-entrant actions for '
          'GetPulseTime and Pulse callbacks, then for each event-loop cycle: CallGetPulseTimeAux on every root, a simulated wait, CallPulseAux on every root); '
